@@ -37,6 +37,9 @@ var renamePool = []string{
 	"alpha", "b2", "_x", "Loop", "LOOP", "loop", "q", "zz9", "imp_1", "step", "ptr", "Bomb", "k", "t0", "gate", "_",
 	"aa", "ab_", "x1", "y", "datA", "movx", "jmpz", "e", "forr", "orgx", "endd", "equu", "CORE", "size", "n", "m",
 	"w", "v", "u", "s", "r", "p", "o", "l",
+	"a_rather_long_label_name_that_goes_on_and_on_for_more_than_sixty_four_characters_0123456789",
+	"L" + strings.Repeat("x", 300),
+	"i", "f", "ab", "ba", "A", "B", "X", "F", "I", // spelled like modifiers (labels, not opcodes)
 }
 
 var reserved = map[string]bool{"CORESIZE": true, "MAXLENGTH": true, "MAXPROCESSES": true, "MINDISTANCE": true}
